@@ -123,12 +123,18 @@ def check_property(pid, tier='quick', seed=0, replay_only=None):
 
     # ---- Kani legs (bounded stand-ins / loop-free complete proofs)
     kani_res = []
+    kani_not_run = []
     if kani_units:
         from . import kani_run
         kani_res = kani_run.run(pid, kani_units, tier, seed)
-        for k in kani_res:
-            if k['status'] == 'undecided':
-                undecided.append('kani %s: %s' % (k['harness'], k.get('reason', '')))
+        # A Kani harness without a verdict (per-harness timeout on a loaded machine, CBMC out of memory, harness no
+        # longer compiling after a signature change) is NOT a verdict on the property: the Kani legs are secondary
+        # (bounded stand-ins, or loop-free duplicates of what a Verus unit proves).  It is listed in the evidence as
+        # not run and printed as a NOTE; the property is decided by the remaining legs.
+        kani_not_run = [k for k in kani_res if k['status'] == 'undecided']
+        kani_res = [k for k in kani_res if k['status'] != 'undecided']
+        for k in kani_not_run:
+            print('NOTE property=%s kani harness %s gave no verdict (%s): not counted' % (pid, k['harness'], k.get('reason', '')[:160]))
 
     # ---- triage
     violations = []
@@ -298,6 +304,7 @@ def check_property(pid, tier='quick', seed=0, replay_only=None):
             'normalisation_log': normlog,
             'known_finding_obligations': [k['obligation'] for k in known_hits],
             'bounded_standins': [k for k in kani_res if not k.get('counts_as_proof')],
+            'kani_not_run': [{'harness': k['harness'], 'reason': k.get('reason', '')} for k in kani_not_run],
             'kani_complete_proofs': [k for k in kani_res if k.get('counts_as_proof')],
             'undecided': undecided + never_proved + internal_only,
             'stability': {u: getattr(r, 'stability', None) for u, r in results.items()},
